@@ -1,0 +1,330 @@
+//go:build verif
+
+package gcsemu
+
+// Contracts of the object stores (meta.go, memstore.go, filestore.go) for properties C09, C10, C07, C20.
+// This file contains comments only and is compiled only with the build tag "verif".
+
+// ---------------------------------------------------------------------------------------------
+// meta.go
+// ---------------------------------------------------------------------------------------------
+
+//@ func normalizeBaseUrl
+//@   property C09
+//@   pure
+//@   ensures result == ((baseUrl == "" || baseUrl == "https://storage.googleapis.com/") ? "https://www.googleapis.com/" : (baseUrl == "http://storage.googleapis.com/" ? "http://www.googleapis.com/" : baseUrl))
+
+//@ func ScrubMeta
+//@   property C09 C20
+//@   requires meta != nil
+//@   modifies meta.Bucket, meta.Kind, meta.MediaLink, meta.SelfLink, meta.Size, meta.StorageClass
+//@   ensures meta.Bucket == "" && meta.Kind == "" && meta.MediaLink == "" && meta.SelfLink == "" && meta.Size == 0 && meta.StorageClass == ""
+
+// The URLs are built with fmt.Sprintf, whose result is opaque: the contracts name the result with an
+// uninterpreted function of exactly the arguments the code passes (normalised base url, bucket, name).
+
+//@ func BucketUrl
+//@   property C09
+//@   pure
+//@   ensures result == ufs_bucketUrl(baseUrl, bucket)
+
+//@ func ObjectUrl
+//@   property C09
+//@   pure
+//@   ensures result == ufs_objectUrl(baseUrl, bucket, filepath)
+
+//@ func BucketMeta
+//@   property C09
+//@   ensures result != nil && fresh(result)
+//@   ensures result.Kind == "storage#bucket" && result.Name == bucket && result.StorageClass == "STANDARD"
+//@   ensures result.SelfLink == ufs_bucketUrl(baseUrl, bucket)
+
+//@ func InitScrubbedMeta
+//@   property C09 C10 C20
+//@   requires meta != nil
+//@   modifies meta.ContentType, meta.Name, meta.Bucket, meta.Kind, meta.MediaLink, meta.SelfLink, meta.Size, meta.StorageClass
+//@   ensures meta.Name == filename
+//@   ensures old(meta.ContentType) != "" ==> meta.ContentType == old(meta.ContentType)
+//@   ensures meta.Bucket == "" && meta.Kind == "" && meta.MediaLink == "" && meta.SelfLink == "" && meta.Size == 0 && meta.StorageClass == ""
+
+//@ func InitMetaWithUrls
+//@   property C09 C10 C20
+//@   requires meta != nil
+//@   modifies meta.ContentType, meta.Name, meta.Bucket, meta.Kind, meta.MediaLink, meta.SelfLink, meta.Size, meta.StorageClass
+//@   ensures meta.Name == filename && meta.Bucket == bucket && meta.Size == size
+//@   ensures meta.Kind == "storage#object" && meta.StorageClass == "STANDARD"
+//@   ensures meta.SelfLink == ufs_objectUrl(baseUrl, bucket, filename)
+//@   ensures meta.MediaLink == ufs_objectUrl(baseUrl, bucket, filename) + "?alt=media"
+//@   ensures old(meta.ContentType) != "" ==> meta.ContentType == old(meta.ContentType)
+
+// ---------------------------------------------------------------------------------------------
+// memstore.go
+// ---------------------------------------------------------------------------------------------
+
+// Lock discipline (C07, C20): the bucket registry is protected by memstore.mu, each bucket's tree by its own mu.
+//@ guarded_by memstore.buckets memstore.mu
+//@ guarded_by memBucket.files memBucket.mu read=Get,Ascend,Len write=ReplaceOrInsert,Delete
+
+// The registry map is never nil (NewMemStore is the only writer of the field; checked at its store), every bucket in
+// it is non-nil and has a tree (CreateBucket is the only writer; checked at its store).
+//@ typeinv mapvals_nonnil memstore.buckets
+//@ typeinv nonnil memstore.buckets
+//@ typeinv nonnil memBucket.files
+
+// What every item of a bucket tree is: a non-nil *memFile (see the container assumption in area_gcsstores.spec).
+//@ spec memItemOK(i btree.Item) bool = i != nil && typeis(i, *memFile) && as(i, *memFile) != nil
+
+// Thread-modular reading of the contracts: a function that takes and releases a lock promises nothing about the
+// state guarded by that lock at its return (another request may have changed it meanwhile). So getBucket's
+// result is just "nil or some bucket"; in particular CreateBucket does NOT promise that a later getBucket
+// finds the bucket (a concurrent Delete(bucket, "") may run in between).
+
+//@ func (ms *memstore) getBucket
+//@   property C07 C20
+//@   held ms.mu none
+
+//@ func (ms *memstore) key
+//@   property C09 C20
+//@   ensures result != nil && typeis(result, *memFile) && as(result, *memFile) != nil && fresh(result)
+//@   ensures as(result, *memFile).meta.Name == filename
+
+// Less is called by the btree library only, with items/keys of this package: every item inserted into a
+// bucket tree and every key built by memstore.key is a non-nil *memFile (checked at ReplaceOrInsert/Get/Delete).
+//@ func (mf *memFile) Less
+//@   property C09 C20
+//@   pure
+//@   requires than != nil && typeis(than, *memFile) && as(than, *memFile) != nil
+//@   ensures result == (mf.meta.Name < as(than, *memFile).meta.Name)
+
+//@ func (ms *memstore) CreateBucket
+//@   property C07 C09 C20
+//@   held ms.mu none
+//@   modifies mapof(ms.buckets)
+//@   ensures result == nil
+
+//@ func (ms *memstore) GetBucketMeta
+//@   property C07 C09 C20
+//@   held ms.mu none
+//@   ensures result1 == nil
+//@   ensures result0 != nil ==> fresh(result0) && result0.Kind == "storage#bucket" && result0.Name == bucket && result0.StorageClass == "STANDARD"
+//@   ensures result0 != nil ==> result0.SelfLink == ufs_bucketUrl(baseUrl, bucket)
+
+//@ func NewMemStore
+//@   property C07 C09
+//@   ensures result != nil && fresh(result)
+
+// A stored file: f has been handed to ReplaceOrInsert (history predicate ufb_stored of area_gcsstores.spec).
+// memFiles are immutable after insertion: no function of this package has a memFile field (or a field of its
+// embedded meta) in its `modifies`, and the frame obligations check that.
+//@ spec storedFile(f *memFile, name string) bool = f != nil && ufb_stored(f) && f.meta.Name == name
+
+// find/Get/GetMeta/Add/UpdateMeta/Copy/Delete/Walk lock ms.mu and then the mutex of a bucket that is only known
+// after the registry lookup, so the caller must not hold any of these locks: requires nolocks().
+
+//@ func (ms *memstore) find
+//@   property C07 C09 C20
+//@   requires nolocks()
+//@   ensures result != nil ==> ufb_stored(result)
+//@   ensures result != nil ==> result.meta.Name == filename
+
+//@ func (ms *memstore) Get
+//@   property C07 C09 C10 C20
+//@   requires nolocks()
+//@   ensures result2 == nil
+//@   ensures result0 == nil ==> isnil(result1)
+//@   ensures result0 != nil ==> result0.Name == filename
+// from the Store interface contract (gcsemu_ifaces.spec): the returned metadata is the caller's own object.
+// EXPECTED RED: memstore.Get returns &f.meta, a pointer INTO the stored memFile (see report, finding G2).
+//@   ensures result0 != nil ==> fresh(result0)
+
+//@ func (ms *memstore) GetMeta
+//@   property C07 C09 C10 C20
+//@   requires nolocks()
+//@   ensures result1 == nil
+//@   ensures result0 != nil ==> fresh(result0)
+//@   ensures result0 != nil ==> result0.Name == filename && result0.Bucket == bucket && result0.Kind == "storage#object" && result0.StorageClass == "STANDARD"
+//@   ensures result0 != nil ==> result0.SelfLink == ufs_objectUrl(baseUrl, bucket, filename) && result0.MediaLink == ufs_objectUrl(baseUrl, bucket, filename) + "?alt=media"
+// (Size is uint64(len(data)): govc models the conversion as "mod 2^64" and does not know len <= MaxInt64, hence the explicit modulus)
+//@   ensures result0 != nil ==> exists f *memFile :: storedFile(f, filename) && result0.Generation == f.meta.Generation && result0.Metageneration == f.meta.Metageneration && result0.Md5Hash == f.meta.Md5Hash && result0.Size == len(f.data) % 18446744073709551616
+
+//@ func (ms *memstore) ReadMeta
+//@   property C07 C09 C10 C20
+//@   requires nolocks()
+//@   ensures result1 == nil
+//@   ensures result0 != nil ==> fresh(result0)
+//@   ensures result0 != nil ==> result0.Name == filename && result0.Bucket == bucket && result0.Kind == "storage#object" && result0.StorageClass == "STANDARD"
+
+// C10 for the memory store. "Stored" = the memFile handed to ReplaceOrInsert (ufb_stored), which is immutable
+// afterwards. uf_unixNano(time) is the clock reading (area_gcsstores.spec); the clock value is read inside Add, so
+// the stored generation cannot be chosen by the caller.
+//@ func (ms *memstore) Add
+//@   property C07 C09 C10 C20
+//@   requires nolocks()
+//@   requires meta != nil
+//@   modifies meta.ContentType, meta.Name, meta.Bucket, meta.Kind, meta.MediaLink, meta.SelfLink, meta.Size, meta.StorageClass, meta.Metageneration, meta.Updated, meta.Generation, meta.TimeCreated, mapof(ms.buckets)
+//@   ensures result == nil
+//@   ensures meta.Metageneration == 1 && meta.Name == filename
+//@   ensures meta.Bucket == "" && meta.Kind == "" && meta.MediaLink == "" && meta.SelfLink == "" && meta.Size == 0 && meta.StorageClass == ""
+//@   ensures old(meta.TimeCreated) != "" ==> meta.TimeCreated == old(meta.TimeCreated)
+//@   ensures old(meta.TimeCreated) == "" ==> meta.TimeCreated == meta.Updated
+//@   ensures exists f *memFile :: fresh(f) && storedFile(f, filename) && f.meta.Metageneration == 1 && f.meta.Generation == meta.Generation && f.meta.TimeCreated == meta.TimeCreated && f.meta.Updated == meta.Updated && f.meta.Md5Hash == meta.Md5Hash && f.data == contents
+// the generation is a reading of the clock (ufb_clockReading: value of some time.Now() call; the contract language has
+// neither ghost state nor local names in `ensures`, so "of the time.Now() call inside this Add" cannot be said)
+//@   ensures ufb_clockReading(meta.Generation)
+
+// UpdateMeta: the new stored file g carries exactly `metagen`, and generation, md5 and content of the file f
+// it replaces (the file found under that name).
+//@ func (ms *memstore) UpdateMeta
+//@   property C07 C09 C10 C20
+//@   requires nolocks()
+//@   requires meta != nil
+//@   modifies meta.ContentType, meta.Name, meta.Bucket, meta.Kind, meta.MediaLink, meta.SelfLink, meta.Size, meta.StorageClass, meta.Metageneration, meta.Generation, meta.Md5Hash
+//@   ensures result == nil ==> meta.Metageneration == metagen && meta.Name == filename
+//@   ensures result == nil ==> exists f *memFile, g *memFile :: storedFile(f, filename) && fresh(g) && storedFile(g, filename) && g.meta.Metageneration == metagen && g.meta.Generation == f.meta.Generation && g.meta.Md5Hash == f.meta.Md5Hash && g.data == f.data
+//@   ensures result == nil ==> exists f *memFile :: storedFile(f, filename) && meta.Generation == f.meta.Generation && meta.Md5Hash == f.meta.Md5Hash
+
+// Copy: a missing source gives (false, nil); otherwise the destination is written through Add, so the new stored
+// file has metageneration 1, a fresh clock generation, the source's content, and a reset creation time
+// (TimeCreated == Updated of the new file).
+//@ func (ms *memstore) Copy
+//@   property C07 C09 C10 C20
+//@   requires nolocks()
+//@   modifies mapof(ms.buckets)
+//@   ensures result1 == nil
+//@   ensures result0 ==> exists f *memFile, g *memFile :: storedFile(f, srcFile) && fresh(g) && storedFile(g, dstFile) && g.meta.Metageneration == 1 && ufb_clockReading(g.meta.Generation) && g.meta.TimeCreated == g.meta.Updated && g.meta.Md5Hash == f.meta.Md5Hash && g.data == f.data
+
+//@ func (ms *memstore) Delete
+//@   property C07 C09 C20
+//@   requires nolocks()
+//@   modifies mapof(ms.buckets)
+
+// Walk calls cb with the bucket's read lock held: cb must not call back into the store for the same bucket
+// (memstore.find takes the write lock: self-deadlock). The only caller (makeBucketListResults) resolves the
+// items after the walk. The callback's error stops the iteration but is NOT returned (finding G3).
+//@ func (ms *memstore) Walk
+//@   property C07 C09 C20
+//@   requires nolocks()
+//@   requires cb != nil
+//@   modifies *
+//@   callback $1 invariant cb != nil
+
+// ---------------------------------------------------------------------------------------------
+// filestore.go
+// ---------------------------------------------------------------------------------------------
+
+// Number of file-system mutating calls made by this thread (see area_gcsstores.spec).
+//@ ghostvar fsMutations int
+
+//@ func NewFileStore
+//@   property C09
+//@   ensures result != nil && fresh(result) && result.gcsDir == gcsDir
+
+//@ func metaFilename
+//@   property C09
+//@   pure
+//@   ensures result == filename + ".emumeta"
+
+// The path of an object is a function of (directory, bucket, name) only (filepath.Join is opaque, see report T1):
+// this is what makes a second filestore instance on the same directory find the same files (C09 persistence).
+//@ func (fs *filestore) filename
+//@   property C09
+//@   pure
+//@   ensures result == ufs_fsPath(fs.gcsDir, bucket, filename)
+
+//@ func (fs *filestore) CreateBucket
+//@   property C09 C20
+//@   modifies ghost(fsMutations)
+//@   ensures fsMutations == old(fsMutations) + 1
+
+//@ func (fs *filestore) GetBucketMeta
+//@   property C09 C10 C20
+//@   ensures result1 != nil ==> result0 == nil
+//@   ensures result0 != nil ==> fresh(result0) && result0.Kind == "storage#bucket" && result0.Name == bucket && result0.StorageClass == "STANDARD"
+//@   ensures result0 != nil ==> result0.SelfLink == ufs_bucketUrl(baseUrl, bucket)
+
+// ReadMeta: sidecar JSON (if any) overlaid with the computed fields; generation = mtime of the content file.
+// A directory is not an object: (nil, nil). A content file without sidecar is served with default metadata.
+//@ func (fs *filestore) ReadMeta
+//@   property C09 C10 C20
+//@   requires fInfo != nil
+//@   ensures result1 != nil ==> result0 == nil
+//@   ensures result0 != nil ==> fresh(result0)
+//@   ensures ufb_isDir(fInfo) ==> result0 == nil && result1 == nil
+//@   ensures result0 != nil ==> result0.Name == filename && result0.Bucket == bucket && result0.Kind == "storage#object" && result0.StorageClass == "STANDARD"
+//@   ensures result0 != nil ==> result0.SelfLink == ufs_objectUrl(baseUrl, bucket, filename) && result0.MediaLink == ufs_objectUrl(baseUrl, bucket, filename) + "?alt=media"
+//@   ensures result0 != nil ==> result0.Generation == uf_mtimeNanos(fInfo) && result0.Size == uf_fileSize(fInfo)
+
+//@ func (fs *filestore) GetMeta
+//@   property C09 C10 C20
+//@   ensures result1 != nil ==> result0 == nil
+//@   ensures result0 != nil ==> fresh(result0)
+//@   ensures result0 != nil ==> result0.Name == filename && result0.Bucket == bucket && result0.Kind == "storage#object" && result0.StorageClass == "STANDARD"
+//@   ensures result0 != nil ==> result0.SelfLink == ufs_objectUrl(baseUrl, bucket, filename) && result0.MediaLink == ufs_objectUrl(baseUrl, bucket, filename) + "?alt=media"
+
+//@ func (fs *filestore) Get
+//@   property C09 C10 C20
+//@   ensures result2 != nil ==> result0 == nil && isnil(result1)
+//@   ensures result0 == nil ==> isnil(result1)
+//@   ensures result0 != nil ==> fresh(result0)
+//@   ensures result0 != nil ==> result0.Name == filename && result0.Bucket == bucket && result0.Kind == "storage#object" && result0.StorageClass == "STANDARD"
+
+// C10 for the file store. What is persisted is (content file, its mtime = generation, sidecar = JSON of *meta).
+// The sidecar bytes are mustJson(meta) taken AFTER the last write to *meta, so the postconditions on *meta describe
+// the stored metadata (the link "bytes == JSON of *meta at return" is by inspection: mustJson has no functional
+// contract). The mtime is forced to a clock reading: precondition of os.Chtimes in area_gcsstores.spec.
+// On success Add makes exactly four file-system calls: MkdirAll, WriteFile(content), Chtimes, WriteFile(sidecar).
+//@ func (fs *filestore) Add
+//@   property C09 C10 C20
+//@   requires meta != nil
+//@   modifies meta.ContentType, meta.Name, meta.Bucket, meta.Kind, meta.MediaLink, meta.SelfLink, meta.Size, meta.StorageClass, meta.Metageneration, meta.TimeCreated, ghost(fsMutations)
+//@   ensures result == nil ==> meta.Metageneration == 1 && meta.Name == filename
+//@   ensures result == nil ==> meta.Bucket == "" && meta.Kind == "" && meta.MediaLink == "" && meta.SelfLink == "" && meta.Size == 0 && meta.StorageClass == ""
+//@   ensures result == nil && old(meta.TimeCreated) != "" ==> meta.TimeCreated == old(meta.TimeCreated)
+//@   ensures result == nil ==> ufb_fileWritten(ufs_fsPath(fs.gcsDir, bucket, filename), contents)
+//@   ensures result == nil ==> fsMutations == old(fsMutations) + 4
+//@   ensures old(fsMutations) <= fsMutations <= old(fsMutations) + 4
+
+// UpdateMeta: exactly one file-system mutation, a write of the sidecar (path + ".emumeta"): the content file and
+// its mtime (= generation, size) are not touched; the stored metageneration is metagen.
+//@ func (fs *filestore) UpdateMeta
+//@   property C09 C10 C20
+//@   requires meta != nil
+//@   modifies meta.ContentType, meta.Name, meta.Bucket, meta.Kind, meta.MediaLink, meta.SelfLink, meta.Size, meta.StorageClass, meta.Metageneration, meta.Md5Hash, ghost(fsMutations)
+//@   ensures result == nil ==> meta.Metageneration == metagen && meta.Name == filename
+//@   ensures result == nil ==> fsMutations == old(fsMutations) + 1
+//@   ensures old(fsMutations) <= fsMutations <= old(fsMutations) + 1
+//@   ensures result == nil ==> exists d []byte :: ufb_fileWritten(ufs_fsPath(fs.gcsDir, bucket, filename) + ".emumeta", d)
+
+// Copy: a missing source is (false, nil) without touching the file system; success goes through Add.
+//@ func (fs *filestore) Copy
+//@   property C09 C10 C20
+//@   modifies ghost(fsMutations)
+//@   ensures result0 ==> result1 == nil
+//@   ensures result0 ==> fsMutations == old(fsMutations) + 4
+//@   ensures old(fsMutations) <= fsMutations <= old(fsMutations) + 4
+//@   ensures result0 ==> exists d []byte :: ufb_fileWritten(ufs_fsPath(fs.gcsDir, dstBucket, dstFile), d)
+
+//@ func (fs *filestore) Delete
+//@   property C09 C20
+//@   modifies ghost(fsMutations)
+//@   ensures fsMutations >= old(fsMutations)
+//@   loop 1 invariant fsMutations >= old(fsMutations)
+
+//@ func (fs *filestore) Walk
+//@   property C09 C20
+//@   requires cb != nil
+//@   modifies *
+
+// The walk callback (an escaping closure, verified as a unit of its own): cb is the captured parameter of Walk.
+//@ func (fs *filestore) Walk$1
+//@   property C09 C20
+//@   requires cb != nil
+//@   modifies *
+
+// The iterator closure of memstore.Walk (also verified as a unit of its own): it is only ever called by
+// BTree.Ascend, i.e. with a stored item (container assumption of area_gcsstores.spec); cb is Walk's parameter.
+//@ func (ms *memstore) Walk$1
+//@   property C07 C09 C20
+//@   requires memItemOK(i)
+//@   requires cb != nil
+//@   modifies *
